@@ -327,6 +327,7 @@ func (w *world) opReopenFaulty() {
 	if c := w.tailClass(); c != "" {
 		w.classes["reopen-with-"+c]++
 	}
+	w.dropHeld("close")
 	w.q.Close()
 	pf := &pageFault{ctor: kind, fired: map[string]int{}}
 	armFault(pf)
